@@ -431,3 +431,8 @@ func fileIno(p string) uint64 {
 	}
 	return uint64(st.ModTime().UnixNano())
 }
+
+// SearchParamsAST exposes the processor parameters the store would build for an AST search.
+func (e *Env) SearchParamsAST(ast *parser.ASTNode, p Params) processor.SearchParams {
+	return e.searchParams(ast, p)
+}
